@@ -86,13 +86,46 @@ type workerSpec struct {
 	budget              float64
 }
 
+// progressBuf collects a worker's stderr and remembers when it last announced a run ("RUN <idx>").
+type progressBuf struct {
+	mu   sync.Mutex
+	buf  bytes.Buffer
+	last time.Time
+}
+
+func (b *progressBuf) Write(p []byte) (int, error) {
+	b.mu.Lock()
+	defer b.mu.Unlock()
+	if bytes.Contains(p, []byte("RUN ")) {
+		b.last = time.Now()
+	}
+	return b.buf.Write(p)
+}
+
+func (b *progressBuf) String() string {
+	b.mu.Lock()
+	defer b.mu.Unlock()
+	return b.buf.String()
+}
+
+func (b *progressBuf) sinceProgress() time.Duration {
+	b.mu.Lock()
+	defer b.mu.Unlock()
+	return time.Since(b.last)
+}
+
+// stallLimit: a single run that has not finished after this long is not going to (a run takes milliseconds to a few
+// seconds; tens of seconds for concurrent whole-spec validations under the race detector on a loaded machine).
+const stallLimit = 12 * time.Minute
+
 func spawnWorker(self string, p *Prop, tier string, seed uint64, w workerSpec, timeout time.Duration) (*WorkerResult, error) {
 	args := []string{"worker", "-prop", p.ID, "-tier", tier, "-seed", fmt.Sprint(seed),
 		"-offset", fmt.Sprint(w.offset), "-stride", fmt.Sprint(w.stride), "-max", fmt.Sprint(w.max), "-budget", fmt.Sprint(w.budget)}
 	cmd := exec.Command(self, args...)
-	var out, errb bytes.Buffer
+	var out bytes.Buffer
+	errb := &progressBuf{last: time.Now()}
 	cmd.Stdout = &out
-	cmd.Stderr = &errb
+	cmd.Stderr = errb
 	cmd.Env = append(os.Environ(), "GORACE=halt_on_error=0 exitcode=0 history_size=7 log_path="+raceLogPrefix())
 	if err := cmd.Start(); err != nil {
 		return nil, err
@@ -104,8 +137,33 @@ func spawnWorker(self string, p *Prop, tier string, seed uint64, w workerSpec, t
 			os.Remove(fmt.Sprintf("%s.%d", raceLogPrefix(), cmd.Process.Pid))
 		}
 	}()
-	select {
-	case err := <-done:
+	var werr error
+	finished := false
+	deadline := time.After(timeout)
+	tick := time.NewTicker(5 * time.Second)
+	defer tick.Stop()
+	for !finished {
+		select {
+		case werr = <-done:
+			finished = true
+		case <-tick.C:
+			if errb.sinceProgress() > stallLimit {
+				_ = cmd.Process.Kill()
+				<-done
+				if idx, _, ok := crashInfo(errb.String() + "\nfatal error: (killed)\n"); ok {
+					// one run never finished: a finding candidate (confirmed by replaying that run under the same limit)
+					return &WorkerResult{Prop: p.ID, Stopped: "hang", CrashIdx: idx, CrashMsg: fmt.Sprintf("a run did not finish within %v", stallLimit), NextIdx: idx + w.stride}, nil
+				}
+				return nil, fmt.Errorf("worker made no progress for %v\n%s", stallLimit, tail(errb.String(), 2000))
+			}
+		case <-deadline:
+			_ = cmd.Process.Kill()
+			<-done
+			return nil, fmt.Errorf("worker watchdog (%v) expired\n%s", timeout, tail(errb.String(), 2000))
+		}
+	}
+	{
+		err := werr
 		if err != nil {
 			if ee, ok := err.(*exec.ExitError); ok && ee.ExitCode() == 66 && p.Race {
 				// exit code 66 = the race detector's own exit code; the worker's JSON is still complete
@@ -117,9 +175,6 @@ func spawnWorker(self string, p *Prop, tier string, seed uint64, w workerSpec, t
 				return nil, fmt.Errorf("worker failed: %v\n%s", err, tail(errb.String(), 4000))
 			}
 		}
-	case <-time.After(timeout):
-		_ = cmd.Process.Kill()
-		return nil, fmt.Errorf("worker watchdog (%v) expired\n%s", timeout, tail(errb.String(), 2000))
 	}
 	var res WorkerResult
 	line := lastJSONLine(out.Bytes())
@@ -312,7 +367,7 @@ func checkMain(args []string) {
 					return
 				}
 				mu.Unlock()
-				if res.Stopped == "crash" {
+				if res.Stopped == "crash" || res.Stopped == "hang" {
 					left -= (res.CrashIdx-offset)/jobs + 1
 					offset = res.NextIdx
 					continue
@@ -327,9 +382,7 @@ func checkMain(args []string) {
 		}(w)
 	}
 	wg.Wait()
-	if len(werrs) > 0 {
-		die2("%s", strings.Join(werrs, "\n---\n"))
-	}
+	// (harness trouble in some worker does not hide what the others found: it is reported at the end, see below)
 
 	// ---- aggregate ----
 	agg := &WorkerResult{Prop: p.ID, Stats: map[string]uint64{}, Edges: map[string]int{}, Faults: map[string]int{}, Probes: map[string]int{}}
@@ -356,6 +409,13 @@ func checkMain(args []string) {
 			sigs[s] = struct{}{}
 		}
 		agg.Violations = append(agg.Violations, r.Violations...)
+		if r.Stopped == "hang" {
+			agg.Probes["worker-runs-that-never-finished"]++
+			agg.Violations = append(agg.Violations, FoundViolation{Scenario: p.Gen(seed, *tier, r.CrashIdx), Idx: r.CrashIdx,
+				Violation: Violation{Property: p.ID, Class: "no-return", Site: "run does not finish",
+					Expected: "every call returns", Got: r.CrashMsg,
+					Detail: "a call of this history never returns (or takes unboundedly long: something grows without bound): " + r.CrashMsg}})
+		}
 		if r.Stopped == "crash" {
 			agg.Probes["worker-process-crashes"]++
 			agg.Violations = append(agg.Violations, FoundViolation{Scenario: p.Gen(seed, *tier, r.CrashIdx), Idx: r.CrashIdx,
@@ -395,6 +455,24 @@ func checkMain(args []string) {
 		// confirm in a fresh process. The execution must be identical (event-log hash); a race REPORT is the race
 		// detector's business and is not guaranteed for every identical execution (it has to restore the stack of the
 		// older access from a bounded per-thread history), so several attempts are made for that class.
+		if fv.Violation.Class == "no-return" {
+			// confirmed iff the run does not finish in a fresh process either; not minimised (every candidate would cost the limit)
+			_, err := replayFresh1(self, tmp, stallLimit)
+			if err == nil || !strings.Contains(err.Error(), "replay watchdog expired") {
+				die2("a worker made no progress on run %d for %v, but the run replays to its end in a fresh process (overloaded machine?): %v (see %s)", fv.Idx, stallLimit, err, tmp)
+			}
+			final := filepath.Join(*violDir, fmt.Sprintf("%s-%d-%d.json", p.ID, seed, si))
+			v := fv.Violation
+			sc.Expect = &v
+			_ = writeScenario(final, sc)
+			os.Remove(tmp)
+			vs, _ := json.Marshal(map[string]any{"signature": s, "runs_showing_it": len(bySig[s]), "first_run_index": fv.Idx, "replay": final, "detail": v.Detail})
+			violationSamples = append(violationSamples, vs)
+			newViolations++
+			reportLines = append(reportLines, fmt.Sprintf("VIOLATION property=%s replay=%s", p.ID, final))
+			fmt.Printf("--- violation %s\n    %s\n", s, v.Detail)
+			continue
+		}
 		attempts := 1
 		if fv.Violation.Class == "data-race" {
 			attempts = 8
@@ -624,7 +702,13 @@ func checkMain(args []string) {
 		fmt.Println(l)
 	}
 	if newViolations > 0 {
+		if len(werrs) > 0 {
+			fmt.Fprintf(os.Stderr, "NOTE: some workers also reported harness trouble:\n%s\n", strings.Join(werrs, "\n---\n"))
+		}
 		os.Exit(1)
+	}
+	if len(werrs) > 0 {
+		die2("%s", strings.Join(werrs, "\n---\n"))
 	}
 }
 
